@@ -39,6 +39,9 @@ type c34Case struct {
 	Via   string     `json:"via"` // middleware | server
 	Rules []corsRule `json:"rules"`
 	Req   c34Req     `json:"request"`
+	// stale-configuration scenario: the bucket held PriorRules and served PriorReq before Rules were stored
+	PriorRules []corsRule `json:"prior_rules,omitempty"`
+	PriorReq   *c34Req    `json:"prior_request,omitempty"`
 }
 
 // ---- reference matcher (written from the documented semantics) -------------
@@ -653,9 +656,22 @@ func runC34(tier, replay string) {
 				r.Inconclusive(err.Error())
 				r.Finish()
 			}
-			st, err := cs.putCORS("corsb", w.Case.Rules)
-			if err != nil || st != 200 {
-				fmt.Println("replay: configuration not accepted", st, err)
+			if w.Case.PriorReq != nil {
+				bucket := strings.SplitN(strings.TrimPrefix(w.Case.Req.Path, "/"), "/", 2)[0]
+				cs.g.real.CreateBucket(contextBG(), bn(bucket))
+				cs.g.real.PutObject(contextBG(), bn(bucket), ok("obj"), vkit.Ptr("text/plain"), strings.NewReader("object-content"), nil, nil)
+				cs.putCORS(bucket, w.Case.PriorRules)
+				cs.g.do(serverSpec(cs.g.api, *w.Case.PriorReq))
+				if len(w.Case.Rules) > 0 {
+					cs.putCORS(bucket, w.Case.Rules)
+				} else {
+					cs.g.do(reqSpec{Method: "DELETE", Host: cs.g.api, Path: "/" + bucket, RawQuery: "cors"})
+				}
+			} else {
+				st, err := cs.putCORS("corsb", w.Case.Rules)
+				if err != nil || st != 200 {
+					fmt.Println("replay: configuration not accepted", st, err)
+				}
 			}
 			cs.checkServer(r, w.Case, "replay")
 			cs.g.close()
@@ -830,6 +846,10 @@ func runC34(tier, replay string) {
 				r.Sample(c)
 			}
 		}
+	}
+	cs.staleConfigScenario(r, rng, r.N(24, 400))
+	if r.Counter("stale_scenario_replaced_used_configuration") == 0 {
+		r.Inconclusive("no used CORS configuration was ever replaced")
 	}
 	cs.g.close()
 	if r.Counter("outcome:granted-with-matching-rule") == 0 {
